@@ -315,9 +315,16 @@ void ScriptMaster::CloseProgramScript()
 void ScriptMaster::ClearAll()
 {
     // Destroy and free all script class
-    ScriptContext::Get().GetAllocator().ScriptClass_allocator.FreeAll();
+    ScriptContext& context = ScriptContext::Get();
+    context.GetAllocator().ScriptClass_allocator.FreeAll();
 
     CloseProgramScript();
+
+    // the variables of the global objects are named by entries of the dictionary that is reset below
+    context.GetGame()->ClearVars();
+    context.GetLevel()->ClearVars();
+    parm.ClearVars();
+
     dict.Reset();
 
     // reinitialize const strings
